@@ -16,9 +16,12 @@ THEOREMS = [
     'Px.Relay.C07_no_early_close', 'Px.Relay.C07_no_early_close_run', 'Px.Relay.C07_upstream_write_failure_drains',
     'Px.Relay.C07_prompt', 'Px.Relay.C07_flushInv', 'Px.Relay.C07_reads_off', 'Px.Relay.C07_only_shrinks',
     'Px.Relay.C07_delivered', 'Px.Relay.C07_threaded', 'Px.Relay.C07_threaded_drains',
-    'Px.Relay.C07_raised_only_app',
+    'Px.Relay.C07_raised_only_app', 'Px.Relay.C07_not_reaped_while_pending', 'Px.Relay.C07_reaped_iff',
+    'Px.Relay.C07_closed_only_when_drained',
 ]
-RULE = ('relay: the real handler is brought into a final-flush state by a real request (400 / 404 / 407 / 502 '
+RULE = ('reaper: schedules interleaved with idle-reaper events (real is_inactive() and real Threadless._cleanup_inactive() on a real '
+        'LocalFdExecutor under the virtual clock; elapsed below/at/above the timeout; timeouts >0, 0, <0) vs Relay.runEv; '
+        'relay: the real handler is brought into a final-flush state by a real request (400 / 404 / 407 / 502 '
         'packet, optionally more queued pieces up to ~130 KiB; or tunnel / HTTP exchange whose upstream sends '
         'data and then closes) and driven tick by tick with send scripts mixing short writes, would-block and '
         'failures vs Relay.step; shut: threaded shutdown()/_flush() with a scripted selector vs Relay.shutdown; '
@@ -130,7 +133,10 @@ def oracle(case):
         that empties the client buffer returns True (prompt close);
     (c) end to end: when the work is torn down without any client-side failure, the
         client peer has read every byte ever queued for it, in order, then sees EOF;
-    (d) threaded shutdown(): closes with output pending only after a send failure."""
+    (d) threaded shutdown(): closes with output pending only after a send failure;
+    (e) reaper events (real is_inactive() / Threadless._cleanup_inactive() under the virtual clock):
+        a connection with pending client output is never closed by the reaper, for every clock
+        reading and timeout (zero / negative included); once drained and idle past the timeout it is."""
     if case['kind'] == 'shut':
         r = run_shut(case)
         if r['end'] == 'looping':
@@ -146,13 +152,27 @@ def oracle(case):
         return None
 
     def after(w, h, cs, cp, us, res):
-        if res['ret'] != 'c':
+        if res['ret'] in ('t', 'x'):
             h.shutdown()        # what Threadless._cleanup does next
     r = R.run_relay(case, after)
     any_client_failure = False
     queued_total = r['init_c']
     sig = None
+    T = R.timeout_units(case)
     for st in r['steps']:
+        if st.get('reap'):
+            # (e) the idle reaper never closes a connection with pending client output, whatever the
+            #     clock and the timeout; a drained connection idle past the timeout is closed
+            if st['closed'] and st['pending']:
+                sig = 'reaped-with-pending-client-output'
+                break
+            if st['pending_n'] == 0 and st['elapsed'] > T and not st['closed']:
+                sig = 'drained-idle-connection-not-reaped'
+                break
+            if st['closed'] and not st['elapsed'] > T:
+                sig = 'reaped-before-timeout'
+                break
+            continue
         c_send, c_recv, u_send = _tick_failures(st)
         any_client_failure = any_client_failure or c_send or c_recv
         for e in st['ulog']:
@@ -170,7 +190,7 @@ def oracle(case):
             break
     if sig:
         return sig
-    if r['ret'] == 't' and not any_client_failure:
+    if r['ret'] in ('t', 'r') and not any_client_failure:
         if r['cpeer'] != queued_total:
             return 'client-peer-missed-output-before-close'
         if not r['cpeer_eof']:
@@ -247,6 +267,37 @@ def gen_upstream_close(rng, setup):
     return R.relay_case(setup, pre + eof + post, mx)
 
 
+def with_reaps(rng, case):
+    """interleave idle-reaper events (clock far beyond / around / below the timeout; timeouts
+    positive, zero and negative) into a relay schedule"""
+    T = rng.choice([10, 10, 1, 0, 0, -1, -3, 2])
+    tu = T * R.UNIT
+
+    def elapsed():
+        return max(0, rng.choice([tu - 1, tu, tu + 1, tu + 1, 0, 1, tu + 5 * R.UNIT, 10 ** 7, 10 ** 9, rng.randrange(0, 40000)]))
+    ticks = []
+    p = rng.choice([0.2, 0.5, 1.0])
+    for t in case['ticks']:
+        while rng.random() < p * 0.6:
+            ticks.append(['R', elapsed()])
+        ticks.append(t)
+    ticks.append(['R', elapsed()])
+    if rng.random() < 0.5:
+        ticks.append(['R', tu + 1 + rng.randrange(0, 5000)])
+    return dict(case, ticks=ticks, timeout=T)
+
+
+def gen_reap(rng):
+    k = rng.random()
+    if k < 0.45:
+        c = gen_local(rng)
+    elif k < 0.8:
+        c = gen_upstream_close(rng, rng.choice(['tunnel', 'tunnel', 'http']))
+    else:
+        c = R.gen_relay_case(rng, 'tunnel')          # ordinary relay states
+    return with_reaps(rng, c)
+
+
 def gen_shut(rng, big=False):
     mx = rng.choice([None, 1, 4, 0, 65536]) if not big else rng.choice([None, 0, 65536, 100000, 30000])
     out = [R.small_spec(rng, 0, 20) for _ in range(rng.randint(0, 4))]
@@ -266,6 +317,10 @@ def gen_shut(rng, big=False):
 
 def corpus():
     cs = [d15_schedule()]
+    # seeded regression "is_inactive() ignores the pending buffer": a paused client must not be reaped
+    cs.append(dict(R.relay_case('404', [['m0100', 'b', ['s', 5], 'b', 'b'], ['R', 4 * 1024], ['m0100', 'b', ['s', 10 ** 6], 'b', 'b']],
+                                None, [{'n': 3000, 'a': 7, 'b': 1}]), timeout=1))
+    cs.append(dict(R.relay_case('tunnel', [R.MENU[0], ['R', 10 ** 7], R.MENU[4], R.MENU[4], ['R', 10240], ['R', 10241]]), timeout=10))
     cs.append(R.relay_case('400', [['m0100', 'b', ['s', 10], 'b', 'b'], ['m0100', 'b', 'b', 'b', 'b'],
                                    ['m1100', 'b', ['s', 10 ** 6], 'b', 'b']]))
     cs.append(R.relay_case('407', [['m0100', 'b', ['s', 1], 'b', 'b']] * 3 + [['m0100', 'b', ['s', 10 ** 6], 'b', 'b']], 50))
@@ -295,6 +350,20 @@ def systematic(depth):
                 yield R.relay_case(setup, [menu[i] for i in combo], mx, extra)
 
 
+def reap_systematic():
+    """pending / drained x clock below, at, above the timeout x timeout sign, on every setup"""
+    for setup in LOCAL + ['tunnel', 'http']:
+        for T in (-2, 0, 1, 10):
+            tu = T * R.UNIT
+            for e in sorted({0, max(0, tu - 1), max(0, tu), tu + 1 if tu + 1 > 0 else 1, 10 ** 8}):
+                drain = ['m0100', 'b', ['s', 10 ** 6], 'b', 'b']
+                part = ['m0100', 'b', ['s', 1], 'b', 'b']
+                up = ['m0010', 'b', 'b', ['d', {'hex': 'a1b2c3'}], 'b']
+                yield dict(R.relay_case(setup, [['R', e], part, ['R', e], drain, ['R', e]], 64), timeout=T)
+                if setup in ('tunnel', 'http'):
+                    yield dict(R.relay_case(setup, [up, ['R', e], drain, drain, ['R', e], up, ['R', e]], 64), timeout=T)
+
+
 def generate(rng, tier):
     big = tier == 'thorough'
     for c in systematic(3 if not big else 4):
@@ -305,6 +374,10 @@ def generate(rng, tier):
         yield gen_upstream_close(rng, rng.choice(['tunnel', 'tunnel', 'http']))
     for _ in range(8 if not big else 60):
         yield gen_local(rng, big=True)
+    for _ in range(2000 if not big else 20000):
+        yield gen_reap(rng)
+    for c in reap_systematic():
+        yield c
     for _ in range(1500 if not big else 12000):
         yield gen_shut(rng)
     for _ in range(6 if not big else 40):
@@ -327,6 +400,7 @@ def search(rng):
     out += [gen_local(rng) for _ in range(1500)]
     out += [gen_upstream_close(rng, rng.choice(['tunnel', 'http'])) for _ in range(1500)]
     out += [gen_shut(rng) for _ in range(800)]
+    out += [gen_reap(rng) for _ in range(1500)] + list(reap_systematic())
     return out
 
 
@@ -334,6 +408,11 @@ def describe(case):
     if case['kind'] == 'shut':
         return ['shut threaded=%d' % case['threaded'], 'shut pieces=%d' % min(len(case['out']), 4)]
     n = len(case['ticks'])
+    reaps = sum(1 for t in case['ticks'] if t[0] == 'R')
+    if reaps:
+        T = case.get('timeout')
+        return ['relay+reaper ' + case['setup'], 'reaper timeout ' + ('<0' if T < 0 else '0' if T == 0 else '>0'),
+                'reaper events ' + ('1' if reaps == 1 else '<=4' if reaps <= 4 else '>4')]
     total = sum(len(R.payload(s)) for s in case.get('extra', []))
     return ['relay ' + case['setup'], 'relay ticks ' + ('<=3' if n <= 3 else '<=10' if n <= 10 else '>10'),
             'relay max=%s' % case.get('max'), 'relay extra ' + ('0' if not total else '<64K' if total < 65536 else '>=64K')]
